@@ -124,8 +124,10 @@ class Check:
         self.budget = budget or self.params.get('budget',
                                                 TIERS[tier]['budget'])
         from . import world as W
+        # (fixed width: the length of the world's path decides how many
+        # buffer flushes - numbered mutation events - a written file has)
         self.scratch = os.path.join(W.scratch_root(), prop,
-                                    'run{}'.format(os.getpid()))
+                                    'r{:07d}'.format(os.getpid() % 10**7))
         self.known = [k for k in load_known() if k['property'] == prop]
         self.violations = []       # new ones
         self.known_seen = {}
@@ -527,7 +529,7 @@ def main(argv=None):
             rep = json.load(f)
         from . import world as W
         root = os.path.join(W.scratch_root(), args.prop,
-                            'replay{}'.format(os.getpid()))
+                            'replay{:05d}'.format(os.getpid() % 10**5))
         try:
             vios = mod.replay(rep, root)
         finally:
